@@ -475,15 +475,15 @@ def runKeeping (f : List GoVal → ArrF.R GoVal) (xs : List GoVal) (args : List 
     ArrF.R (List GoVal × GoVal) :=
   (f (.slice .any xs :: args)).bind fun v => .ok (xs, v)
 
-/- Full statement (NOT captured by a pure model): "after `{{ a | f }}` the Go array bound to `a`
-holds the same elements at the same addresses, and the result shares no backing array with it".
-A Lean function cannot write to its argument, so in the model this is true by construction: the
-theorem below only records that the value bound to the receiver after the call is the value before
-it, for every body of the table and every outcome. What carries the weight is (a) the model sorting
-a *copy* where the Go code copies — a missing `copy` in the Go code would not be noticed here — and
-therefore (b) the `arrf` stream, which after every case compares the caller's Go value with an
-untouched second realisation (`reflect.DeepEqual`) and renders `{{ a | f | join }}␞{{ a | join }}`
-to see the input unchanged afterwards. -/
+/- Full statement: "after `{{ a | f }}` the Go array bound to `a` holds the same elements at the same
+addresses, spare capacity included". A Lean function cannot write to its argument, so in THIS (value) model the
+theorem below only records that the value bound to the receiver after the call is the value before it. The
+clause itself is proved on the slice-memory model of `Liquid/Heap.lean` — a store of backing arrays, Go's
+`append`/`copy`/element assignment with a write log, `Convert` passing a `[]any` through uncopied, every body
+line by line — in `Proofs/C15Heap.lean` (`array_filters_do_not_write_inputs`, `pipeline_no_write`,
+`heap_refines_pure`: the memory-level filters return what the bodies of this file compute), tied to the code by
+the `alias` stream; the `arrf` stream keeps comparing the caller's Go value with an untouched second realisation
+(`reflect.DeepEqual`) and rendering `{{ a | f | join }}␞{{ a | join }}` after every case. -/
 theorem filters_pure_partial (f : List GoVal → ArrF.R GoVal) (xs args : List GoVal) (xs' : List GoVal) (v : GoVal)
     (h : runKeeping f xs args = .ok (xs', v)) : xs' = xs ∧ f (.slice .any xs :: args) = .ok v := by
   unfold runKeeping at h
